@@ -12,7 +12,7 @@ from ..common import calls_in, norm, kw, DF, LOD, GEO
 from ..facts import facts_at
 from ..model import AnalysisError, FunctionInfo, body_nodes
 from ..signatures import sig, forwarded, keyword_value, name_uses
-from ..dataflow import defs_reaching, comprehension_binding
+from ..dataflow import defs_reaching, comprehension_binding, depends_on
 from ..cfg import cfg_of
 
 EXPLANATION = (
@@ -438,6 +438,63 @@ def check(ctx):
                        f"rebinding empties (e.g. only the implicit column) then means `no restriction`, and every column is read",
                        clause="reading with a column/key restriction equals reading everything and then selecting those")
     ctx.note(f"RESTR-given: {n_given} truthiness test(s) of restriction parameters examined")
+    # RESTR-raise: a reader may reject a requested name only against the COMPLETE set of columns of what it returns.  A
+    # validation `x not in D` placed before D receives further (constant-named) columns rejects a column that reading
+    # everything and selecting it returns.
+    ctx.rule("RESTR-raise", "a raise that depends on the restriction parameter validates against a container that already has every column of the result")
+    n_rr = 0
+    for q in READERS:
+        fn = repo.functions.get(q)
+        if fn is None:
+            continue
+        for P in [p_ for p_ in RESTRICT if p_ in fn.kwonly + fn.params]:
+            for r in [n for n in body_nodes(fn.node) if isinstance(n, ast.Raise)]:
+                tests, cur = [], r
+                while cur is not None and cur is not fn.node:
+                    par = fn.module.parent.get(cur)
+                    if isinstance(par, ast.If) and cur is not par.test:
+                        tests.append(par.test)
+                    cur = par
+                dep = [t for t in tests if depends_on(fn, t, r, P)]
+                if not dep:
+                    continue
+                n_rr += 1
+                # containers the validation tests membership in: in the tests and in what the tested names were computed from
+                conts, texts = set(), []
+                work = list(dep)
+                seen_v = set()
+                while work:
+                    t = work.pop()
+                    texts.append(norm(t))
+                    for n in ast.walk(t):
+                        if isinstance(n, ast.Compare) and len(n.ops) == 1 and isinstance(n.ops[0], (ast.In, ast.NotIn)) \
+                                and isinstance(n.comparators[0], ast.Name) and n.comparators[0].id != P:
+                            conts.add(n.comparators[0].id)
+                        if isinstance(n, ast.Name) and isinstance(n.ctx, ast.Load) and n.id not in seen_v and n.id != P:
+                            seen_v.add(n.id)
+                            for d in defs_reaching(fn, n.id, r):
+                                if d.value is not None and d.kind != "param":
+                                    work.append(d.value)
+                late = []
+                for D in sorted(conts):
+                    for n in body_nodes(fn.node):
+                        if getattr(n, "lineno", 0) <= r.lineno:
+                            continue
+                        key = None
+                        if isinstance(n, ast.Assign) and isinstance(n.targets[0], ast.Subscript) and norm(n.targets[0].value) == D \
+                                and isinstance(n.targets[0].slice, ast.Constant) and isinstance(n.targets[0].slice.value, str):
+                            key = n.targets[0].slice.value
+                        if isinstance(n, ast.Call) and isinstance(n.func, ast.Attribute) and n.func.attr == "setdefault" and norm(n.func.value) == D \
+                                and n.args and isinstance(n.args[0], ast.Constant) and isinstance(n.args[0].value, str):
+                            key = n.args[0].value
+                        if key is not None and not any(repr(key) in t_ or f'"{key}"' in t_ for t_ in texts):
+                            late.append((D, key, n.lineno))
+                ctx.ob("RESTR-raise", fn, f"raise under `{norm(dep[0])[:70]}`", r, not late,
+                       f"the request is validated against {sorted(conts) or 'no container'}, complete at that point" if not late else
+                       f"requested names are validated against `{late[0][0]}` before the column {late[0][1]!r} is added to it (line {late[0][2]}): "
+                       f"requesting {late[0][1]!r} -- a column of the unrestricted result -- raises, while reading everything and selecting it works",
+                       clause="reading with a column/key restriction equals reading everything and then selecting those")
+    ctx.note(f"RESTR-raise: {n_rr} raise statement(s) depending on a restriction parameter examined")
     # positions of requested names: <names>.index(x) finds the FIRST field of that name, while the unrestricted read
     # (dict(zip(names, row))) keeps the LAST -- with a duplicated header name the restricted read returns another field
     for q in READERS:
@@ -456,7 +513,6 @@ def check(ctx):
 
     # TYPE-late: the type map is applied to what was read; it is never handed to the foreign parser, whose own typed
     # parsing differs from parse-then-cast ("007" read as a string column stays "007", read-then-cast gives "7")
-    from ..dataflow import depends_on
     ctx.rule("TYPE-late", "no argument of a foreign parsing call depends on the dtype/type map parameter")
     n_parse = 0
     for q in READERS:
